@@ -255,7 +255,8 @@ def validation(chk, dprog, cfg):
     for p_ in cd.closure_tree(dprog, cb.path):
         bb_ = dprog.body(p_)
         names |= {bb_.callee_name(t).split("::")[-1] for _, t in bb_.calls()}
-    chk.expect("get_ident" in names and not ({"first", "last"} & names), "R20.3", "contains_type_param:whole-path-is-the-ident", cb.where(),
+    # (syn's Path::is_ident(x) is `get_ident() == Some(x)`: the whole path is one plain segment equal to x)
+    chk.expect(({"get_ident", "is_ident"} & names) and not ({"first", "last"} & names), "R20.3", "contains_type_param:whole-path-is-the-ident", cb.where(),
                "compares Path::get_ident() with the parameter: %s; looks at single segments: %s" % ("get_ident" in names, sorted({"first", "last"} & names)), cfg)
     # ScaleInfoAttr::parse
     cands = [p for p in dprog.fns if p.startswith("<scale_info_derive::attr::ScaleInfoAttr as syn::parse::Parse>::parse")]
